@@ -27,6 +27,9 @@ import (
 //   pub:<client>:<topic>:<qos>  publisher a (v5: content type, response topic, correlation
 //                               data, two user properties with equal keys) or b (v3.1.1)
 //   disc:<a|c> / conn:<a|c>     ("sess": a resumes its session, c's session ends)
+// With "acl" a read permission on (client, message topic) is installed (b may not read x/y,
+// c may not read x; every filter may be subscribed): a matching subscription entitles only
+// if the client may read the topic of the message.
 // Reference model: subscription table; per publish the entitled set; for the offline
 // persistent session the set of tags that must be queued (delivered QoS > 0).
 //
@@ -48,6 +51,14 @@ type c03Model struct {
 	nsub    int
 	nunsub  int
 	npub    int
+	acl     bool // scenario "acl": b may not read topic x/y, c may not read topic x (filters are all allowed)
+}
+
+// c03ReadDenied is the reference read permission of scenario "acl": it is a relation on
+// (client, TOPIC of the message); being allowed to subscribe to a wildcard filter that
+// covers the topic does not grant it.
+func c03ReadDenied(cl, topic string) bool {
+	return (cl == "b" && topic == "x/y") || (cl == "c" && topic == "x")
 }
 
 var c03Filters = map[string]string{"1": "x/+", "2": "x/#", "3": "#", "4": "+/#"}
@@ -62,6 +73,9 @@ func (m *c03Model) entitled(cl, topic, origin string) (ok bool, matching []strin
 			continue
 		}
 		matching = append(matching, s[i+1:])
+		if m.acl && c03ReadDenied(cl, topic) {
+			continue
+		}
 		if m.subs[s].nl && origin == cl {
 			nlExcluded++
 			continue
@@ -95,7 +109,7 @@ func c03CheckCopy(h *H, cl string, p ref.Packet, topic, tag string, origin strin
 }
 
 func c03Run(arg string) explore.HistFn {
-	nf, maxSub, maxUnsub, maxPub, sess := 3, 2, 1, 2, false
+	nf, maxSub, maxUnsub, maxPub, sess, acl := 3, 2, 1, 2, false, false
 	for _, a := range strings.Split(arg, ",") {
 		switch {
 		case len(a) == 2 && a[0] == 'f':
@@ -104,11 +118,19 @@ func c03Run(arg string) explore.HistFn {
 			maxSub, maxUnsub, maxPub = int(a[1]-'0'), int(a[3]-'0'), int(a[5]-'0')
 		case a == "sess":
 			sess = true
+		case a == "acl":
+			acl = true
 		}
 	}
 	return func(hist []string) explore.HistResult {
-		h := newH(world.Config{})
-		m := &c03Model{subs: map[string]c03Sub{}, online: map[string]bool{"a": true, "b": true, "c": true}, pending: map[string]bool{}, ndisc: map[string]int{}}
+		var cfg world.Config
+		if acl {
+			cfg.Hook = func(rh *world.RecHook) {
+				rh.ACL = func(cl *mqtt.Client, topic string, write bool) bool { return write || !c03ReadDenied(cl.ID, topic) }
+			}
+		}
+		h := newH(cfg)
+		m := &c03Model{subs: map[string]c03Sub{}, online: map[string]bool{"a": true, "b": true, "c": true}, pending: map[string]bool{}, ndisc: map[string]int{}, acl: acl}
 		cnt := map[string]int{}
 		for _, cl := range []string{"a", "b", "c"} {
 			h.connect(cl, c03ConnectPacket(cl))
@@ -272,6 +294,8 @@ func c03Run(arg string) explore.HistFn {
 						if n > 0 {
 							why := "no-matching-subscription"
 							switch {
+							case m.acl && c03ReadDenied(cl, topic) && len(matching) > 0:
+								why = "not-authorised-to-read-topic"
 							case nlx > 0:
 								why = "no-local"
 							case !m.online[cl]:
@@ -280,6 +304,8 @@ func c03Run(arg string) explore.HistFn {
 							h.violate("c03:unentitled:"+why, "%s on %q published by %s: %s received %d copies but holds only %v (No Local excludes %d)", tag, topic, origin, cl, n, matching, nlx)
 						} else if nlx > 0 {
 							h.count(cnt, "no_local_exclusions", 1)
+						} else if m.acl && c03ReadDenied(cl, topic) && len(matching) > 0 {
+							h.count(cnt, "read_denied_exclusions", 1)
 						}
 					}
 				}
@@ -615,7 +641,7 @@ func init() {
 			budget    time.Duration
 		}
 		scen := []sc{
-			{"c03", "f3,s2u1p1", 8 * time.Second}, {"c03", "f2,s2u0p2,sess", 25 * time.Second},
+			{"c03", "f3,s2u1p1", 8 * time.Second}, {"c03", "f2,s2u0p2,sess", 25 * time.Second}, {"c03", "f3,s2u0p1,acl", 8 * time.Second},
 			{"c03drop", "queue", 4 * time.Second}, {"c03drop", "inflight", 4 * time.Second}, {"c03drop", "pid", 4 * time.Second}, {"c03drop", "size", 4 * time.Second},
 		}
 		conc := []string{"pubB1+pubC0", "pubB1+pubC1", "pubB0+pubC1+subD", "pubB1+pubC0+unsubA"}
@@ -623,7 +649,7 @@ func init() {
 		per := 5 * time.Second
 		if !c.Quick() {
 			scen = []sc{
-				{"c03", "f4,s3u1p2", 200 * time.Second}, {"c03", "f3,s3u1p2,sess", 220 * time.Second},
+				{"c03", "f4,s3u1p2", 200 * time.Second}, {"c03", "f3,s3u1p2,sess", 220 * time.Second}, {"c03", "f4,s3u1p2,acl", 200 * time.Second},
 				{"c03drop", "queue,deep", 20 * time.Second}, {"c03drop", "inflight,deep", 20 * time.Second}, {"c03drop", "pid,deep", 20 * time.Second}, {"c03drop", "size,deep", 20 * time.Second},
 			}
 			conc = append(conc, "pubB1+pubB1b+pubC1", "pubB1+pubC1+subD+unsubA")
@@ -652,7 +678,7 @@ func init() {
 			c.Rep.Count(k, v)
 		}
 		if fullRun() && c.Rep.Get("transitions") > 0 && len(tot) > 0 {
-			for _, k := range []string{"c03_entitled_deliveries", "c03_overlapping_subscriptions", "c03_no_local_exclusions", "c03_queued_for_offline_session", "c03drop_omission_reported_by_hook", "c03drop_omission_counted_inflight_dropped", "c03drop_omission_oversize"} {
+			for _, k := range []string{"c03_entitled_deliveries", "c03_overlapping_subscriptions", "c03_no_local_exclusions", "c03_read_denied_exclusions", "c03_queued_for_offline_session", "c03drop_omission_reported_by_hook", "c03drop_omission_counted_inflight_dropped", "c03drop_omission_oversize"} {
 				if tot[k] == 0 {
 					c.Rep.Add(explore.Violation{Key: "internal:vacuous:" + k, Msg: fmt.Sprintf("C03 never exercised %s: %v", k, tot)})
 				}
